@@ -199,7 +199,7 @@ func Known(id string, pred bool)    {}
 func ClearKnown()                   {}
 func Unwind(n int)                  {}
 func PanicsAre(kind string)         {}
-func Symbolic() bool                { return false }
+func Symbolic() bool               { return false }
 func Observe(tag string, v ...any)  {}
 func Crash()                        { panic(crashSignal{}) }
 func IteInt64(c bool, a, b int64) int64 {
@@ -258,3 +258,7 @@ func RunReplay(h func()) {
 	}()
 	h()
 }
+
+// FiberHeader registers, for the engine, the value (*fiber.Ctx).Get(name) returns;
+// natively the harness builds a real Fiber context carrying the header.
+func FiberHeader(name, value string) {}
